@@ -66,7 +66,8 @@ def dispatch(chk: Check, repo: Repo) -> None:
             guard_members.add((svc.enum, svc.name))
             if ap is not None:
                 prefix_members.add((svc.enum, svc.name))
-                guard_members.add((ap.enum, ap.name))
+        if ap is not None:
+            guard_members.add((ap.enum, ap.name))  # also an arm keyed by the full 10-bit code alone (single-code services)
         cls = concrete.get(kname)
         code = repo.const(cls, "CODE") if cls is not None else NOFOLD
         # fall-through arm of a prefix group (no `apci ==` guard): the class' CODE is the group's service member
